@@ -158,4 +158,6 @@ def position_code(shape, dtype, seed=0):
     dt = np.dtype(dtype)
     if dt.kind == "f":
         return (code % 100003).astype(dt)
-    return (code % (int(np.iinfo(dt).max) + 1)).astype(dt)
+    if dt.itemsize == 8:
+        return code.astype(dt)
+    return (code % np.uint64(int(np.iinfo(dt).max) + 1)).astype(dt)
